@@ -964,3 +964,86 @@ Proof.
   destruct (kf_all_missing u W); auto. destruct (kf_negative_with_missing u W); auto.
   destruct (kf_sentinel_overflow u W); auto. destruct (kf_beyond_2p53 u W); auto.
 Qed.
+
+(* ---- kf_negative_with_missing deserves its name: the assertion can only fail when some weight is negative *)
+Lemma fold_left_add_ge : forall l acc, (forall x, In x l -> 0 <= x) ->
+  acc <= fold_left Z.add l acc /\ forall x, In x l -> acc + x <= fold_left Z.add l acc.
+Proof.
+  induction l as [|y l IH]; intros acc H; simpl. split. lia. intros x [].
+  assert (Hy : 0 <= y) by (apply H; left; auto).
+  destruct (IH (acc + y)) as [I1 I2]. intros x Hx. apply H. right; auto.
+  split. lia. intros x [Hx | Hx]. subst. lia. specialize (I2 _ Hx). lia.
+Qed.
+Lemma fold_left_max_ge : forall l acc, acc <= fold_left Z.max l acc /\ forall x, In x l -> x <= fold_left Z.max l acc.
+Proof.
+  induction l as [|y l IH]; intros acc; simpl. split. lia. intros x [].
+  destruct (IH (Z.max acc y)) as [I1 I2]. split. lia.
+  intros x [Hx | Hx]. subst. lia. auto.
+Qed.
+Lemma zmax_list_ge : forall l mx x, zmax_list l = Some mx -> In x l -> x <= mx.
+Proof.
+  intros l mx x H Hx. destruct l as [|y l]. destruct Hx. simpl in H. inversion H.
+  destruct (fold_left_max_ge l y) as [I1 I2]. destruct Hx as [Hx | Hx]. subst; auto. auto.
+Qed.
+
+Lemma kf_negative_needs_negative : forall u W, rectb W = true -> 0 < one_of u W ->
+  kf_negative_with_missing u W = true -> exists w, In (Some w) (cells W) /\ wnum w < 0.
+Proof.
+  intros u W Hrect Hone H.
+  destruct (existsb (fun c => match c with Some w => wnum w <? 0 | None => false end) (cells W)) eqn:Ex.
+  - apply existsb_exists in Ex. destruct Ex as [c [Hc Hw]]. destruct c as [w|]; [|discriminate].
+    exists w. split; auto. apply Z.ltb_lt; auto.
+  - exfalso.
+    assert (Hnn : forall w, In (Some w) (cells W) -> 0 <= wnum w).
+    { intros w Hw. destruct (Z.ltb_spec (wnum w) 0); [|lia].
+      assert (existsb (fun c => match c with Some w => wnum w <? 0 | None => false end) (cells W) = true).
+      { apply existsb_exists. exists (Some w). split; auto. apply Z.ltb_lt; auto. }
+      congruence. }
+    unfold kf_negative_with_missing in H. apply andb_true_iff in H. destruct H as [_ H].
+    destruct (max_edge W) as [me|] eqn:Eme; [|discriminate].
+    unfold sentinel in H. destruct (zmax_list (col_sums W)) as [mx|] eqn:Emx; [|discriminate].
+    apply Z.leb_le in H.
+    destruct (present_of_max _ _ Eme) as [wm [Hwm Ewm]].
+    unfold cells in Hwm. apply in_concat in Hwm. destruct Hwm as [row [Hrow Hcell]].
+    apply In_nth_error in Hcell. destruct Hcell as [j Hj].
+    assert (Hjc : (j < ncols W)%nat).
+    { rewrite <- (rectb_spec W Hrect row Hrow). apply nth_error_Some. congruence. }
+    assert (Hcol : me <= col_sum W j).
+    { unfold col_sum.
+      assert (Hall : forall x, In x (map (fun row0 => cell_num (nth j row0 None)) W) -> 0 <= x).
+      { intros x Hx. apply in_map_iff in Hx. destruct Hx as [row0 [E Hr0]]. subst x.
+        destruct (nth_in_or_default j row0 None) as [Hin | Hd].
+        - destruct (nth j row0 None) as [w|] eqn:En; simpl; [|lia]. apply Hnn.
+          unfold cells. apply in_concat. eauto.
+        - rewrite Hd. simpl. lia. }
+      destruct (fold_left_add_ge _ 0 Hall) as [_ G].
+      specialize (G (cell_num (nth j row None))). rewrite (nth_error_nth _ _ None Hj) in G. simpl in G.
+      rewrite Ewm in G. apply G. apply in_map_iff. exists row. split; auto.
+      rewrite (nth_error_nth _ _ None Hj). simpl. auto. }
+    assert (Hmx : col_sum W j <= mx).
+    { eapply zmax_list_ge; eauto. unfold col_sums. apply in_map. apply in_seq. lia. }
+    lia.
+Qed.
+
+(* ---- the model's outcome on the first two classes, for every table of the class (not only the witnesses) *)
+Lemma kf_all_missing_outcome : forall solve u W, rectb W = true -> mixedb W = false ->
+  kf_all_missing u W = true -> mwbm solve u W = Err TypeError.
+Proof.
+  intros solve u W Hrect Hmix H. unfold kf_all_missing in H. apply andb_true_iff in H. destruct H as [Hn Hm].
+  apply negb_true_iff in Hm. destruct (max_edge W) eqn:Eme; [discriminate|].
+  unfold mwbm, prepare. rewrite scan_spec, Hmix. cbn [s_ty s_max s_min s_null]. rewrite Hn, Eme.
+  unfold has_null in Hn. pose proof (has_null_cells_true _ Hn) as HNone.
+  destruct (zmax_col_sums W (ncols_pos _ _ Hrect HNone)) as [mx Emx]. rewrite Emx. reflexivity.
+Qed.
+
+Lemma kf_negative_outcome : forall solve u W, rectb W = true -> mixedb W = false ->
+  kf_negative_with_missing u W = true -> mwbm solve u W = Err AssertionError.
+Proof.
+  intros solve u W Hrect Hmix H. unfold kf_negative_with_missing in H. apply andb_true_iff in H.
+  destruct H as [Hn H]. destruct (max_edge W) as [me|] eqn:Eme; [|discriminate].
+  unfold sentinel in H. destruct (zmax_list (col_sums W)) as [mx|] eqn:Emx; [|discriminate].
+  apply Z.leb_le in H. unfold one_of in H.
+  unfold mwbm, prepare. rewrite scan_spec, Hmix. cbn [s_ty s_max s_min s_null]. rewrite Hn, Eme, Emx.
+  replace (mx + match edge_ty W with Some TFloat => u | _ => 1 end >? me) with false. reflexivity.
+  symmetry. rewrite Z.gtb_ltb. apply Z.ltb_ge. lia.
+Qed.
